@@ -481,10 +481,10 @@ def _specs() -> list[Spec]:
     ]
     # --- windowed
     S += [
-        Spec("WindowedClickThroughRate", M.WindowedClickThroughRate, [{"max_num_updates": 3}, {"max_num_updates": 2, "num_tasks": 2}, {"max_num_updates": 3, "enable_lifetime": False}], g_ctr, kind="window", family="window", model=None),
-        Spec("WindowedWeightedCalibration", M.WindowedWeightedCalibration, [{"max_num_updates": 3}, {"max_num_updates": 2, "num_tasks": 2}, {"max_num_updates": 3, "enable_lifetime": False}], g_wc, kind="window", family="window", model=None),
+        Spec("WindowedClickThroughRate", M.WindowedClickThroughRate, [{"max_num_updates": 3}, {"max_num_updates": 2, "num_tasks": 2}, {"max_num_updates": 3, "enable_lifetime": False}], g_ctr, kind="window", family="window", model=None, count_states=("total_updates", "weight_total")),
+        Spec("WindowedWeightedCalibration", M.WindowedWeightedCalibration, [{"max_num_updates": 3}, {"max_num_updates": 2, "num_tasks": 2}, {"max_num_updates": 3, "enable_lifetime": False}], g_wc, kind="window", family="window", model=None, count_states=("total_updates",)),
         Spec("WindowedBinaryNormalizedEntropy", M.WindowedBinaryNormalizedEntropy, [{"max_num_updates": 3}, {"max_num_updates": 2, "num_tasks": 2}, {"max_num_updates": 3, "enable_lifetime": False}], g_ne, kind="window", family="window", tol=1e-4),
-        Spec("WindowedMeanSquaredError", M.WindowedMeanSquaredError, [{"max_num_updates": 3}, {"max_num_updates": 2, "enable_lifetime": False}, {"max_num_updates": 2, "num_tasks": 2, "_d": 2}], g_mse, kind="window", family="window", model=None),
+        Spec("WindowedMeanSquaredError", M.WindowedMeanSquaredError, [{"max_num_updates": 3}, {"max_num_updates": 2, "enable_lifetime": False}, {"max_num_updates": 2, "num_tasks": 2, "_d": 2}], g_mse, kind="window", family="window", model=None, count_states=("total_updates", "sum_weight")),
         Spec("WindowedBinaryAUROC", M.WindowedBinaryAUROC, [{"max_num_samples": 5}, {"max_num_samples": 4, "num_tasks": 2}], g_binary_tasks_w, kind="window", family="window"),
     ]
     return S
